@@ -6,6 +6,7 @@ import (
 	"net"
 	"net/netip"
 	"strings"
+	"sync"
 	"sync/atomic"
 
 	"github.com/miekg/dns"
@@ -76,6 +77,9 @@ type world struct {
 	victim *zm.Zone
 	evils  []*authsim.Server
 	seq    atomic.Int64
+
+	sentMu sync.Mutex
+	sent   []string // summaries of the first scripted (attack) messages the evil servers built
 
 	local4, local6 net.IP // a local interface address of each family (nil if none)
 }
@@ -344,4 +348,93 @@ func (w *world) clearScripts() {
 		s.ClearScript(false)
 		s.SetDefault(authsim.Action{Label: "evil-out-of-zone-default", Tamper: w.outOfZoneAnswer})
 	}
+}
+
+// recording wraps an attack action so that the messages the evil servers
+// actually build (the attack script as executed) are kept for evidence
+// samples and replay files.
+func (w *world) recording(a authsim.Action) authsim.Action {
+	wrap := func(what string, f authsim.TamperFunc) authsim.TamperFunc {
+		if f == nil {
+			return nil
+		}
+		return func(q, honest *dns.Msg) *dns.Msg {
+			out := f(q, honest)
+			w.noteSent(what, q, out)
+			return out
+		}
+	}
+	a.Tamper = wrap("response", a.Tamper)
+	a.PreTamper = wrap("pre-datagram(wrong id/question)", a.PreTamper)
+	return a
+}
+
+func (w *world) noteSent(what string, q, m *dns.Msg) {
+	w.sentMu.Lock()
+	defer w.sentMu.Unlock()
+	if len(w.sent) >= 4 || m == nil || len(q.Question) == 0 {
+		return
+	}
+	w.sent = append(w.sent, fmt.Sprintf("%s to [%s %s]: %s", what, zm.Canon(q.Question[0].Name), dns.TypeToString[q.Question[0].Qtype], summarize(m)))
+}
+
+func (w *world) sentSummaries() []string {
+	w.sentMu.Lock()
+	defer w.sentMu.Unlock()
+	return append([]string(nil), w.sent...)
+}
+
+func rrList(rrs []dns.RR) string {
+	var out []string
+	for _, rr := range rrs {
+		if _, ok := rr.(*dns.OPT); ok {
+			continue
+		}
+		if sig, ok := rr.(*dns.RRSIG); ok {
+			out = append(out, fmt.Sprintf("%s RRSIG(%s)", sig.Hdr.Name, dns.TypeToString[sig.TypeCovered]))
+			continue
+		}
+		f := strings.Fields(rr.String())
+		if len(f) > 3 {
+			f = append(f[:1], f[3:]...) // owner type rdata
+		}
+		out = append(out, strings.Join(f, " "))
+		if len(out) >= 12 {
+			out = append(out, "...")
+			break
+		}
+	}
+	return "[" + strings.Join(out, "; ") + "]"
+}
+
+// summarize renders a message compactly: flags, question, sections.
+func summarize(m *dns.Msg) string {
+	if m == nil {
+		return "<no reply>"
+	}
+	qs := "<no question>"
+	if len(m.Question) > 0 {
+		qs = strings.ToLower(m.Question[0].Name) + " " + dns.TypeToString[m.Question[0].Qtype]
+		if m.Question[0].Qclass != dns.ClassINET {
+			qs += " " + dns.ClassToString[m.Question[0].Qclass]
+		}
+	}
+	fl := ""
+	if m.Authoritative {
+		fl += " aa"
+	}
+	if m.Truncated {
+		fl += " tc"
+	}
+	if m.AuthenticatedData {
+		fl += " ad"
+	}
+	s := fmt.Sprintf("%s%s q=(%s) AN%s", dns.RcodeToString[m.Rcode], fl, qs, rrList(m.Answer))
+	if len(m.Ns) > 0 {
+		s += " NS" + rrList(m.Ns)
+	}
+	if x := rrList(m.Extra); x != "[]" {
+		s += " AR" + x
+	}
+	return s
 }
